@@ -3,6 +3,7 @@
     Core Liquid Fragment, which the correspondence run ties to /repo).
     The theorems state the documented laws of that semantics. *)
 From LQ Require Import Core.Render Proofs.Value_proofs Proofs.Render_proofs Proofs.Render_buffer Proofs.Render_fuel Proofs.CrossModel.
+From LQ Require Import Proofs.Render_lambda.
 
 (** Sequencing is compositional: rendering [l1 ++ l2] is rendering [l1] and
     then [l2] from where [l1] stopped; the meaning of a construct does not
@@ -118,3 +119,19 @@ Theorem c01_loop_slice_models_agree : forall it limit offset ic prev rv,
     items = map VInt (T.lo_items out) /\ len = T.lo_length out /\ stop = T.lo_stopindex out.
 Proof. exact loop_slice_models_agree. Qed.
 Print Assumptions c01_loop_slice_models_agree.
+
+(** find / find_index / has with an arrow function stop at the first item whose
+    value is truthy and defined: the items after it are never evaluated, so the
+    result (value or error) does not depend on them - whatever they are, even
+    items on which the arrow function would raise. *)
+Theorem c01_stopping_filters_ignore_items_after_match :
+  forall f c a a' lf p ip body v v' pre m post post' rv,
+  lam_stops lf = true ->
+  eval f c a = EOk v -> eval f c a' = EOk v' ->
+  sequence_arg v = Some (pre ++ m :: post) ->
+  sequence_arg v' = Some (pre ++ m :: post') ->
+  eval f (set_scopes c (lam_scope p ip m (Z.of_nat (length pre)) :: scopes c)) body = EOk rv ->
+  lam_true rv = true ->
+  eval (S f) c (EFilterL a lf p ip body) = eval (S f) c (EFilterL a' lf p ip body).
+Proof. exact (fun f => stopping_filter_ignores_tail (eval f)). Qed.
+Print Assumptions c01_stopping_filters_ignore_items_after_match.
